@@ -208,6 +208,43 @@ class Sched:
         g = GuardV(r)
         return Err(g) if m.poisoned else Ok(g)
 
+    def rwlock(self, it, r, op):
+        """std::sync::RwLock under the scheduler: shared readers, one writer, writers preferred (a reader waits while a
+        writer is queued — also when the reading thread already holds a read lock: that is the documented deadlock)"""
+        self.yield_point(it, 'rwlock')
+        me = it.thread
+        key = ('mutex', id(r.cell), r.path)
+        while True:
+            m = rd(r)
+            if not isinstance(m, MutexV):
+                raise ModelError('RwLock::%s on %r' % (op, m))
+            writer_waiting = any(t.status == 'blocked' and t.blocked_on == key and getattr(t, 'wants_write', False) for t in self.threads)
+            if op == 'read':
+                if m.held is None or isinstance(m.held, tuple):
+                    if not writer_waiting:
+                        break
+                elif m.held == me:
+                    raise Deadlock('RwLock::read while this thread holds the write lock', it.where())
+            else:
+                if m.held is None:
+                    break
+                holders = dict(m.held[1]) if isinstance(m.held, tuple) else {m.held: 1}
+                if me in holders:
+                    raise Deadlock('RwLock::write while this thread holds the lock', it.where())
+            t = self._thread_of(it)
+            t.wants_write = (op == 'write')
+            self.block(it, key)
+            t.wants_write = False
+        if op == 'read':
+            holders = dict(m.held[1]) if isinstance(m.held, tuple) else {}
+            holders[me] = holders.get(me, 0) + 1
+            wr(r, MutexV(m.data, ('r', tuple(sorted(holders.items()))), m.poisoned))
+            g = GuardV(r, 'r')
+        else:
+            wr(r, MutexV(m.data, me, m.poisoned))
+            g = GuardV(r, 'x')
+        return Err(g) if m.poisoned else Ok(g)
+
     def released(self, r):
         self.wake(lambda on: on is not None and on[0] == 'mutex' and on[1] == id(r.cell) and on[2] == r.path)
 
